@@ -4,7 +4,7 @@ ID = "C18"
 LEVEL = "other"
 TAGS = ("C18",)
 CONTRACT_MODULES = ALL_CONTRACTS
-FUNCTIONS = ["GcodeParser.GcodeParser.parse"]
+FUNCTIONS = ["GcodeParser.GcodeParser.parse", "GcodeParser.GcodeParser.computeChecksum", "GcodeParser.GcodeParser.validate"]
 ASSUMPTIONS = ["A2", "A4"]
 
 
